@@ -340,7 +340,7 @@ func ruleC10Stdout(c *Ctx) {
 				return false
 			}
 		}
-		return c.writerOrigin(v) == ssa.Value(stdout)
+		return c.writerMayBe(v, stdout, 0)
 	}
 	nReport := 0
 	for _, f := range fns {
